@@ -21,7 +21,8 @@ pub struct Edit {
 pub struct Step {
     pub edits: Vec<Edit>,
     /// 0 exact, 1 coarsened, 2 extra marks, 3 `true`, 4 coarsened + extra, 5 splice-shaped, covering (single array edit; else exact),
-    /// 6 splice-shaped exactly as `tmpl/index.ts` builds it (only for templates reading the array through `wx:for` alone)
+    /// 6 splice-shaped exactly as `tmpl/index.ts` builds it (only for templates reading the array through `wx:for` alone),
+    /// 7 top-level fields of the diff
     pub tree_style: u8,
     pub coarsen: Vec<(u32, u32)>,
     pub extra: Vec<Vec<u8>>,
@@ -72,6 +73,17 @@ pub fn step() -> BoxedStrategy<Step> {
         proptest::collection::vec(proptest::collection::vec(0u8..12, 1..4), 0..3),
     )
         .prop_map(|(edits, tree_style, coarsen, extra)| Step { edits, tree_style, coarsen, extra })
+        .boxed()
+}
+
+/// Steps that set one (sometimes two) top-level fields and report them as such — the shape of a plain `setData({f: v})`,
+/// which the template engine dispatches to the binding-map updaters when the field is advertised.
+pub fn step_top_fields() -> BoxedStrategy<Step> {
+    (proptest::collection::vec((any::<u32>(), prop_oneof![3 => Just(0u8), 1 => Just(1u8)], super::data::value(1), any::<u32>()).prop_map(|(sel, kind, val, aux)| Edit { sel, kind, val, aux }), 1..3), prop_oneof![4 => Just(1usize), 1 => Just(2usize)], prop_oneof![5 => Just(7u8), 1 => Just(0u8)])
+        .prop_map(|(mut edits, n, tree_style)| {
+            edits.truncate(n);
+            Step { edits, tree_style, coarsen: vec![], extra: vec![] }
+        })
         .boxed()
 }
 
@@ -456,7 +468,16 @@ pub fn apply_step(prev: &JsVal, s: &Step) -> Applied {
             None => style = 0,
         }
     }
-    labels.push(format!("tree:{}", ["exact", "coarsened", "extra", "true", "coarsened+extra"][style.min(4) as usize]));
+    if style == 7 {
+        // every differing path is reported as a replace of its top-level field (what `setData({f: v})` produces)
+        tree = Tree::empty();
+        for p in &dp {
+            tree.mark(&p[..1]);
+        }
+        labels.push("tree:top-fields".into());
+    } else {
+        labels.push(format!("tree:{}", ["exact", "coarsened", "extra", "true", "coarsened+extra"][style.min(4) as usize]));
+    }
     if style == 1 || style == 4 {
         for (a, b) in &s.coarsen {
             if dp.is_empty() {
